@@ -1,4 +1,5 @@
-From Verif Require Import Lib.Base Auth.Model Auth.Proofs Auth.GenFacts Gen.SigContexts.
+From Verif Require Import Lib.Base Auth.Model Auth.Proofs Auth.GenFacts Auth.WritersFacts Gen.SigContexts Gen.NonceWriters.
+From Coq Require String.
 
 (* The context list regenerated from every signature.NewContext call of the
    sources satisfies NewContext's own rules, its constant heads are pairwise
@@ -160,3 +161,43 @@ Theorem bit_flip_never_executes_refuted :
     exec_reached (snd (deliver C s raw')) = true.
 Proof. exact GenFacts.bit_flip_never_executes_refuted. Qed.
 Print Assumptions bit_flip_never_executes_refuted.
+
+(* CheckTx (mempool path, its own copy of the state, reset at Commit) never
+   changes the delivery state: the delivery component of any interleaving of
+   delivery operations, CheckTx calls and commits is the run of the delivery
+   operations alone, so every theorem above applies to it unchanged *)
+Theorem checktx_never_changes_delivery_state :
+  forall (L Raw : Type) (C : cfg L Raw) (check_exec_ok : L -> bytes -> tx -> bool)
+         (m : mstate) (ops : list mop),
+    ds (mrun C check_exec_ok m ops) = run C (ds m) (deliver_ops ops).
+Proof. exact (@checktx_erasure). Qed.
+Print Assumptions checktx_never_changes_delivery_state.
+
+Theorem checktx_changes_at_most_the_signers_check_nonce :
+  forall (L Raw : Type) (C : cfg L Raw) (check_exec_ok : L -> bytes -> tx -> bool)
+         (s : state L) (raw : Raw),
+    snd (check_tx C check_exec_ok s raw) = false /\ fst (check_tx C check_exec_ok s raw) = s
+    \/ exists e t, dec_env C raw = Some e /\ verify C e = true /\ dec_tx C (e_blob e) = Some t /\
+         (is_critical C (t_method t) = false -> t_nonce t = nonce_of s (addr_of C (e_pk e))) /\
+         nonces (fst (check_tx C check_exec_ok s raw))
+           = aset (addr_of C (e_pk e)) ((nonce_of s (addr_of C (e_pk e)) + 1) mod U64) (nonces s).
+Proof. exact (@checktx_own_state). Qed.
+Print Assumptions checktx_changes_at_most_the_signers_check_nonce.
+
+(* the only syntactic writers of account nonces in the sources (regenerated):
+   AuthenticateAndPayFees (delivery), PostExecuteTx (CheckTx only), and literals
+   building initial states *)
+Import String.
+Local Open Scope string_scope.
+Theorem nonce_writers_are_the_modelled_ones :
+  nonce_writers = [
+    "go/consensus/cometbft/apps/staking/auth.go:PostExecuteTx:incdec";
+    "go/consensus/cometbft/apps/staking/state/gas.go:AuthenticateAndPayFees:incdec";
+    "go/consensus/cometbft/apps/staking/state/interop/interop.go:InitializeTestStakingState:literal";
+    "go/consensus/cometbft/apps/staking/state/interop/interop.go:InitializeTestStakingState:literal";
+    "go/consensus/cometbft/apps/staking/state/interop/interop.go:InitializeTestStakingState:literal";
+    "go/oasis-node/cmd/common/genesis/staking.go:AppendTo:literal"
+  ].
+Proof. exact nonce_writers_expected. Qed.
+Print Assumptions nonce_writers_are_the_modelled_ones.
+
